@@ -58,6 +58,22 @@ def gen_shm(ws):
               "    let sec = i64::from_ne_bytes([bytes[0], bytes[1], bytes[2], bytes[3], bytes[4], bytes[5], bytes[6], bytes[7]]);",
               '    kani::assert(sec == c.as_of.tv_sec, "C17.layout.as_of_sec_at_0_native_endian");',
               '    kani::cover!(s == 2, "C17.cover.free_running");', "}"]
+    lines += ["", "/// ClockErrorBound::new stores its six arguments verbatim (no clamping, no reordering): every",
+              "/// other crate's oracle, and the daemon itself, go through this constructor.",
+              "#[kani::proof]", "fn c17_record_constructor_stores_arguments_verbatim() {",
+              "    let (a, b, c, d): (i64, i64, i64, i64) = (kani::any(), kani::any(), kani::any(), kani::any());",
+              "    let (bound, drift, res): (i64, u32, u32) = (kani::any(), kani::any(), kani::any());",
+              "    let s: u8 = kani::any();", "    kani::assume(s < 3);",
+              "    let st = match s { 0 => ClockStatus::Unknown, 1 => ClockStatus::Synchronized, _ => ClockStatus::FreeRunning };",
+              "    let r = ClockErrorBound::new(libc::timespec { tv_sec: a, tv_nsec: b }, libc::timespec { tv_sec: c, tv_nsec: d }, bound, drift, res, st);",
+              '    kani::assert(r.as_of.tv_sec == a && r.as_of.tv_nsec == b, "C17.record.as_of_verbatim");',
+              '    kani::assert(r.void_after.tv_sec == c && r.void_after.tv_nsec == d, "C17.record.void_after_verbatim");',
+              '    kani::assert(r.bound_nsec == bound, "C17.record.bound_verbatim");',
+              '    kani::assert(r.max_drift_ppb == drift, "C19.record.drift_rate_stored_verbatim");',
+              '    kani::assert(r.reserved1 == res && r.clock_status as i32 == s as i32, "C17.record.reserved_and_status_verbatim");',
+              "    let z = ClockErrorBound::default();",
+              '    kani::assert(z.bound_nsec == 0 && z.max_drift_ppb == 0 && z.clock_status as i32 == 0 && z.as_of.tv_sec == 0 && z.void_after.tv_sec == 0, "C17.record.default_is_all_zero");',
+              '    kani::cover!(drift >= 1_000_000_000, "C19.cover.large_drift");', "}"]
     ws.write("clock-bound-shm/src/verif_layout.rs", "\n".join(lines) + "\n")
     ws.weave_log.append({"file": "clock-bound-shm/src/verif_layout.rs", "action": "generate", "text": "layout asserts from spec/layout.json", "why": "C17"})
 
